@@ -57,7 +57,9 @@ def run(chk):
                 "grammar, TLC's cases applied to a seeded sample in worker processes: must-reject cases accepted, panics (also in the verifier's goroutines) and "
                 "rejected honest proofs are VIOLATIONs. (3b) KeyProofDeps.tla: the statement graph of ValidKeyProof (which relation proof uses which prover-supplied Pedersen "
                 "commitment as a base, which commitments are left-hand sides of range proofs) under a RE-PROVING adversary that sends commitments as 0 modulo the group prime "
-                "and hashes the zeros the verifier will reconstruct; invariant Sound (accept => safe-prime product and square bases), violated without the nonzero guard (D29). "
+                "and hashes the zeros the verifier will reconstruct; invariant Sound (accept => safe-prime product and square bases), violated without the nonzero guard (D29) and without the tie between the multiplier of an "
+                "expStepB step and the committed base power (D33: with free multipliers both exponentiation chains of the primality proof reach +1 / -1 for a COMPOSITE (P-1)/2 "
+                "that is committed honestly - all commitments nonzero). "
                 "Replay: every scenario is built for real by a cheating prover inside the package (tag verif) for the representatives 0, GroupPrime, 2*GroupPrime - a modulus "
                 "(2a^3+1)(2b+1) and bases with Jacobi symbol -1 - sent through JSON and given to the unmodified VerifyProof. (4) ZkProof.tla (Group variant): the representation-proof engine of the Camenisch-Michels sub-proofs in the concrete group "
                 "zkproof.BuildGroup(23) - Pedersen, multiplication-type, constant-left-hand-side and single-base statements with prover-supplied bases over all residues "
@@ -106,9 +108,10 @@ def run(chk):
     # the re-proving adversary with degenerate commitments (KeyProofDeps.tla)
     r = vplib.tlc_mc("KeyProofDeps", "KeyProofDeps.mc.cfg", timeout=600)
     chk.add_tlc(r, "KeyProofDeps", "KeyProofDeps.mc.cfg", "Sound, Honest over every set of zeroed commitments, every lie and every assignment of false relations")
-    r = vplib.tlc("KeyProofDeps", "KeyProofDeps.asis.cfg", timeout=300, allow_fail=True)
-    if "Sound" not in r.invariant_violated:
-        raise vplib.Machinery("KeyProofDeps: without the nonzero guard Sound should be violated (vacuity)")
+    for probe in ("KeyProofDeps.asis.cfg", "KeyProofDeps.asis2.cfg"):       # without the nonzero guard (D29) / without the tie of the multipliers (D33)
+        r = vplib.tlc("KeyProofDeps", probe, timeout=300, allow_fail=True)
+        if "Sound" not in r.invariant_violated:
+            raise vplib.Machinery("KeyProofDeps: %s should violate Sound (vacuity)" % probe)
     g = vplib.tlc_mc("KeyProofDepsGen", "KeyProofDeps.gen.cfg", workers=1, timeout=600)
     scen = sorted(set(g.tagged_raw_json("K")))
     chk.add_tlc(g, "KeyProofDepsGen", "KeyProofDeps.gen.cfg", "%d replayable scenarios" % len(scen))
